@@ -7,7 +7,9 @@
    V6 shex          -> w0.w1...w7 glibchex pyhex | NONE
    PIP shex         -> texthex | NONE
    GAI shex table   -> OK fam:addrhex,... | RAISE <cls>
-   EFF desthex env cli   (assignments "-" | d=v,d=v in hex) -> valuehex | N *)
+   EFF desthex env cli   (assignments "-" | d=v,d=v in hex) -> valuehex | N
+   ARGV sshl shex delim cmdhex  (sshl = hex,hex,... the words of shlex.split(ssh_cmd); delim 0/1)
+                    -> OK argvhex,argvhex,... SSHPASS=<hex|N> | LOCAL | RAISE <cls>   (ssh.connect up to Popen) *)
 let rec hex_of_pos p acc = match p with
   | XH -> "1" ^ acc
   | _ ->
@@ -74,6 +76,13 @@ let handle = function
     (match parse_hostport (bytes_of_hex s) with
      | Ok (((u, pw), port), h) -> Printf.sprintf "OK %s %s %s %s" (ob u) (ob pw) (on port) (ob h)
      | Raise e -> "RAISE " ^ exn_str e)
+  | ["ARGV"; sshl; s; delim; cmd] ->
+    let ws = List.map bytes_of_hex (String.split_on_char ',' sshl) in
+    (match connect_argv ws (bytes_of_hex s) (delim = "1") (bytes_of_hex cmd) with
+     | Raise e -> "RAISE " ^ exn_str e
+     | Ok None -> "LOCAL"
+     | Ok (Some (argv, pw)) ->
+       Printf.sprintf "OK %s SSHPASS=%s" (String.concat "," (List.map hex_of_bytes argv)) (ob pw))
   | ["ATON"; s] ->
     (match inet_aton (bytes_of_hex s) with
      | None -> "NONE" | Some v -> Printf.sprintf "%s %s" (hex_of_n v) (hex_of_bytes (print_v4 v)))
